@@ -75,7 +75,9 @@ def strategy(tier):
                 "content_spelling": draw(st.sampled_from(["abs", "abs", "trailing-sep", "dot-rel", "double-sep"])),
                 "out_inside_content": draw(st.sampled_from([False, False, False, True])),
                 "decoy_ini_in_cwd": draw(st.sampled_from([False, False, True])),
-                "relative_out": draw(st.sampled_from([False, False, True]))}
+                "relative_out": draw(st.sampled_from([False, False, True])),
+                # the library keyword meta_version as the documented int instead of the string the CLI passes
+                "lib_int_version": draw(st.sampled_from([False, False, True]))}
     return case()
 
 
@@ -276,6 +278,8 @@ def run_case(case):
                 else:
                     kw = lib_kwargs(case, route_content, out)
                     cls = target.torrent.TorrentFile if kw["meta_version"] == "1" else target.torrent.TorrentAssembler
+                    if case.get("lib_int_version"):
+                        kw["meta_version"] = int(kw["meta_version"])
                     with target.quiet():
                         cls(**kw).write()
             except SystemExit as e:
